@@ -1,0 +1,7 @@
+//go:build verif
+
+package csproto
+
+// VerifOffset exposes the encoder's write cursor to the verification harness in /verif.
+// Compiled only with -tags verif.
+func (e *Encoder) VerifOffset() int { return e.offset }
